@@ -30,7 +30,7 @@ package signature
 //@                out.SignedInfo.Reference[0].Transforms.Transform[j].Algorithm == xsig().SignedInfo.Reference.Transforms.Transform[j].Algorithm)
 //@   canary canary-empty-value: err == nil ==> out.SignatureValue.Text == ""
 //@   loop 1 invariant range: -1 <= $ri && $ri < len(xsig().SignedInfo.Reference.Transforms.Transform)
-//@   loop 1 invariant C04.copied-so-far: len(#transforms) == $ri + 1 &&
+//@   loop 1 invariant copied-so-far: len(#transforms) == $ri + 1 &&
 //@             (forall j :: 0 <= j && j <= $ri ==> #transforms[j].Algorithm == xsig().SignedInfo.Reference.Transforms.Transform[j].Algorithm)
 //@
 //@ func signature.ValidateRedirect
